@@ -751,12 +751,14 @@ def run_history(case):
                 if keep and r.rand() < 0.5:
                     pts = keep[r.randint(len(keep))]
                 else:
-                    pts = types.frozenarray(r.randint(-8, 9, size=(3, t.fromdims)) / 4., copy=False)
+                    pts = types.frozenarray(r.randint(-8, 9, size=(t.fromdims if r.rand() < 0.5 else 3, t.fromdims)) / 4., copy=False)
                     if len(keep) < 3 and r.rand() < 0.4 and t.fromdims == 2:
                         keep.append(pts)
                 variants = [pts]
                 if pts.dtype == float and r.rand() < 0.3:
                     variants.append(pts.view(pts.dtype.newbyteorder()))   # same buffer, same shape and strides, other dtype
+                if pts.shape[0] == pts.shape[1] and pts.shape[0] > 1 and r.rand() < 0.6:
+                    variants.append(pts.T)                                # same buffer, same shape and dtype, other strides
                 for q in variants:
                     got = t.apply(q)
                     want = numpy.dot(q, t.linear.T) + t.offset
